@@ -119,9 +119,25 @@ func c15History(kind string, rng *Rng, length int, tag string) {
 			}
 		}
 		probe()
+		// metadata a backend cannot store as sent (values that are not valid UTF-8 are altered by some) is
+		// outside the model; whatever the running server answers for it is what the next one answers too
+		rawKey := "/" + u.buckets[0] + "/raw-meta"
+		rawPut := do(s.h, Req{Method: "PUT", Path: rawKey, Body: []byte("raw metadata"), Header: [][2]string{
+			{"Content-Disposition", "attachment; filename=\"caf\xe9.txt\""}, {"X-Amz-Meta-Author", "Andr\xe9"}, {"X-Amz-Meta-Plain", "ascii"}}})
+		rawBefore := do(s.h, Req{Method: "HEAD", Path: rawKey})
 		if err := s.Reopen(); err != nil {
 			emit(s.prop, "REOPENFAIL", hs(err.Error()))
 			break
+		}
+		if rawPut.Status == 200 {
+			rawAfter := do(s.h, Req{Method: "HEAD", Path: rawKey})
+			msg := fmt.Sprintf("%s: an object uploaded with metadata values that are not valid UTF-8 answers HEAD %d with %s before the restart and %d with %s after it", kind, rawBefore.Status, metaField(rawBefore.Header), rawAfter.Status, metaField(rawAfter.Header))
+			if rawBefore.Status == rawAfter.Status && metaField(rawBefore.Header) == metaField(rawAfter.Header) && rawBefore.Header.Get("ETag") == rawAfter.Header.Get("ETag") {
+				emit(s.prop, "GOOD", hs(msg))
+			} else {
+				emit(s.prop, "BAD", hs("S:metadata-differs-across-restart "+msg))
+			}
+			do(s.h, Req{Method: "DELETE", Path: rawKey})
 		}
 		probe()
 		nontrivial(fmt.Sprint(tag, r))
